@@ -21,7 +21,9 @@
        visitor, i.e. `mrange ord` of the map (`gForEachList_eq`).
      * `DecodeAndMergeWith` is the regenerated wrapper `SparseDecode.SparseStore.DecodeAndMergeWith` on the raw
        structure, with the instance `rawI ord` (the methods above carried to `SparseStore`); `rawI_adds` shows it
-       meets `GenDecodeWrap.SparseAdds`, so `sparse_decode_ok / _sim / _error` apply to it.
+       meets `GenDecodeWrap.SparseAdds`, so `sparse_decode_ok / _sim / _error` apply to it; `gDecode_ok`: where the
+       model's `decodeStore (.sp c)` succeeds (no index wrap, finite weights `≥ 0`) the method returns the model's
+       store and remaining bytes with a nil error.
      NOT covered by a theorem here: `Encode` (see `GenSparse.encode_any_order_denotes`).
   2. `SSim x st := ∃ c, Rep x.g c ∧ st = .sp c ∧ Key64 c` — the map IS the canonical content (`GenSparse.Rep`: the
      same list, strictly increasing keys, weights `> 0`) and every key is an `int64` (`Key64`).  WHY `Key64`: the
@@ -364,6 +366,31 @@ theorem ssim_reweight (hl : ord.Lawful) {x : GSS ord} {st : Store} (h : SSim x s
     | pinf => exact ⟨rfl, h⟩
     | ninf => exact absurd rfl hle
     | nan => exact ⟨rfl, h⟩
+
+/-! ### `DecodeAndMergeWith` of the instance (the regenerated wrapper) against the model's `decodeStore` -/
+
+section decode
+open DDS.GenStoreDecode DDS.GenEncoding DDS.GenDecodeWrap
+
+/-- where the model's `decodeStore` succeeds on `.sp c` (indexes that do not wrap, finite weights `≥ 0`), the
+    method of the instance returns the model's store, the model's remaining bytes and a nil error — no fuel
+    hypothesis (the instance's fuel `3 * len(b) + 64` is sufficient), no condition on the iteration order (the
+    decoder only calls `Add` / `AddWithCount`) -/
+theorem gDecode_ok {x : GSS ord} {c : Content} (h : Rep x.g c) (st' : Store) (sub : Nat) (b : List (BitVec 8))
+    (rest : List Nat) (hw : NoWrap sub (nb b))
+    (hP : ∀ l b' e, decodeCalls (3 * b.length + 64) b (subflag sub) = .ok (l, b', e) → ∀ y ∈ l.calls, NonnegCall y)
+    (hm : Sketch.decodeStore (.sp c) sub (nb b) = some (.ok (st', rest))) :
+    ∃ c', st' = .sp c' ∧ Rep (⟨c'⟩ : SparseStore) c' ∧
+      (StoreI.DecodeAndMergeWith x b (subflag sub) : GSS ord × List (BitVec 8) × GoErr)
+        = (⟨⟨c'⟩⟩, bn rest, GoErr.nil) := by
+  obtain ⟨c', h1, h2, h3⟩ := sparse_decode_ok (rawI ord) (rawI_adds ord) x.g c h st' sub b rest
+    (3 * b.length + 64) (by omega) hw hP hm
+  refine ⟨c', h1, h2, ?_⟩
+  show gDecode x b (subflag sub) = _
+  unfold gDecode
+  rw [h3]
+
+end decode
 
 /-! ### the `StoreSim` instance and the sketch-level corollaries -/
 
